@@ -49,7 +49,11 @@ func vfRenderAll(t tabular.Table, ndeco int, withHTML bool) {
 		out, err := tt.Render()
 		check(out, err, "text-"+vfDecoNames[d])
 	}
-	for _, style := range []string{"csv", "json", "markdown", "texttable", "utf8-light"} {
+	styles := []string{"csv", "json", "markdown", "texttable", "utf8-light"}
+	if vfTier() == 0 {
+		styles = []string{"markdown.x", "texttable.ascii-simple"}
+	}
+	for _, style := range styles {
 		out, err := Render(t, style)
 		check(out, err, "auto-"+style)
 	}
